@@ -455,6 +455,23 @@ theorem C07_lazy_seek_program (o : RecOpt) (docs tfs : List Nat) (hv : ValidList
   seekAll_lazyAt o docs tfs hv hT ts 0 _ (open_lazyAt cfg o (by decide) (by decide) docs tfs hv)
     (Nat.zero_le _) hs hts (by simp)
 
+/-- **Block-level programs of the lazy cursor.**  Any program of `BlockSegmentPostings::advance`
+(out of a full block) and `seek` — in any order, with any targets up to TERMINATED, forwards or
+backwards — on the bytes of a posting list shows exactly what the *doc list* prescribes: `advance`
+moves the block start `n` to `n + 128` and shows `docs[n + 128]`; `seek(t)` steps over the full
+blocks whose last doc is `< t` (`landing`) and shows the first doc `≥ t` from that block's start
+on (TERMINATED if none).  For a freshly opened and for a recycled cursor. -/
+theorem C07_lazy_block_programs (o : RecOpt) (docs tfs : List Nat) (hv : ValidList docs tfs)
+    (hT : ∀ d ∈ docs, d < cfg.T) (ops : List BOp)
+    (hok : okBlockOps cfg.B cfg.T docs (docs.length / cfg.B + 2) 0 ops) :
+    BlockPostings.runOps cfg (BlockPostings.open cfg o o docs.length (encodeTerm cfg o docs tfs)) ops =
+      specBlockOps cfg.B cfg.T docs (docs.length / cfg.B + 2) 0 ops ∧
+    ∀ p : BlockPostings, p.skip.skipInfo = o → p.freqOpt = freqOptOf o o →
+      BlockPostings.runOps cfg (p.reset cfg docs.length (encodeTerm cfg o docs tfs)) ops =
+        specBlockOps cfg.B cfg.T docs (docs.length / cfg.B + 2) 0 ops :=
+  ⟨runOps_lazyAt o docs tfs hv hT ops 0 _ (open_lazyAt cfg o (by decide) (by decide) docs tfs hv) hok,
+   fun p hs hf => runOps_lazyAt o docs tfs hv hT ops 0 _ (reset_lazyAt o docs tfs hv p hs hf) hok⟩
+
 /-! ### TermInfoStore -/
 
 /-- **TermInfoStore round trip.** For every list of TermInfos whose ranges are ordered, below `2^56`
@@ -583,7 +600,8 @@ the `TermInfoStore`).  Then for the `n`-th term of the specification (the term d
 `n`-th term in byte order to ordinal `n`): the store returns a `TermInfo` whose `doc_freq` is the
 spec's, whose byte ranges cut out of the two files bytes that read back (`WithFreqsAndPositions`,
 eager decoder) as exactly the spec's postings of that term under the record option, and on whose
-postings range the lazy block cursor drains to exactly the spec's docs. -/
+postings range the lazy block cursor drains to exactly the spec's docs (and, when the option
+stores them, term frequencies). -/
 theorem C07_segment_end_to_end (o : RecOpt) (c : Corpus) (G : Recorder.GoodCorpus c)
     (h1 : ((FieldSerializer.segmentTerms o c).flatMap (·.postings)).length < 2 ^ 56)
     (h2 : ((FieldSerializer.segmentTerms o c).flatMap (·.positions)).length < 2 ^ 56)
@@ -595,7 +613,11 @@ theorem C07_segment_end_to_end (o : RecOpt) (c : Corpus) (G : Recorder.GoodCorpu
         some (((invert c).terms[n]).2.map (project o)) ∧
       (BlockPostings.drain cfg (i.docFreq / cfg.B + 2) (BlockPostings.open cfg o o i.docFreq
         (FieldSerializer.sliceTerm (FieldSerializer.segmentFiles o c) i).postings)).1 =
-        ((invert c).terms[n]).2.map (·.doc) := by
+        ((invert c).terms[n]).2.map (·.doc) ∧
+      (hasFreq o = true →
+        (BlockPostings.drain cfg (i.docFreq / cfg.B + 2) (BlockPostings.open cfg o o i.docFreq
+          (FieldSerializer.sliceTerm (FieldSerializer.segmentFiles o c) i).postings)).2 =
+          ((invert c).terms[n]).2.map (·.tf)) := by
   have hlen : (FieldSerializer.segmentTerms o c).length = (invert c).terms.length :=
     FieldSerializer.segmentTerms_length o c
   have hn' : n < (termsOf Gen.Postings.POSITION_GAP c).length := by
@@ -613,10 +635,14 @@ theorem C07_segment_end_to_end (o : RecOpt) (c : Corpus) (G : Recorder.GoodCorpu
     unfold FieldSerializer.segmentFiles; rw [hslice, hts]
   have hidf : i.docFreq = (Recorder.serializeTerm o r').docFreq := by
     rw [← hsl]; rfl
-  refine ⟨i, hget, ?_, ?_, ?_⟩
+  refine ⟨i, hget, ?_, ?_, ?_, fun ho => ?_⟩
   · rw [hidf, hdf, hterm]; rfl
   · rw [hsl, hback, hterm]
   · rw [hsl, hidf, hlazy, hterm]
+  · obtain ⟨r'', hr'', hlazytf⟩ := FieldSerializer.segment_term_lazy_tf o ho c G _ (List.getElem_mem hn')
+    have hrr' : r'' = r' := Option.some.inj (hr''.symm.trans hr)
+    subst hrr'
+    rw [hsl, hidf, hlazytf, hterm]
 
 /-! ### the recorders' byte log: `ExpUnrolledLinkedList` in the shared arena -/
 
@@ -786,6 +812,9 @@ example : (Expull.runWrites [Expull.Eull.default, Expull.Eull.default] Expull.Ar
 example : (Expull.runWrites (List.replicate 2 Expull.Eull.default) Expull.Arena.empty
       [(0, [1, 2, 3]), (1, [9]), (0, [4, 5, 6, 7, 8, 9, 10])]).2.len ≤ 2 ^ 32 ∧
     (∀ w ∈ [(0, [1, 2, 3]), (1, [9]), (0, [4, 5, 6, 7, 8, 9, 10])], w.1 < 2) := by decide +kernel
+example : okBlockOps cfg.B cfg.T (List.range 130) (130 / cfg.B + 2) 0 [.advance, .seek 129, .seek 5] ∧
+    specBlockOps cfg.B cfg.T (List.range 130) (130 / cfg.B + 2) 0 [.advance, .seek 129, .seek 5] = [128, 129, 128] :=
+  ⟨⟨by decide +kernel, by decide +kernel, by decide +kernel, trivial⟩, by decide +kernel⟩
 example : Recorder.sortPostings ([⟨0, 1, [0]⟩, ⟨1, 2, [0, 2]⟩, ⟨2, 1, [4]⟩].map (Recorder.remapPosting (fun d => 2 - d))) =
     [⟨0, 1, [4]⟩, ⟨1, 2, [0, 2]⟩, ⟨2, 1, [0]⟩] := by decide
 example : BlockPostings.seekAll cfg (BlockPostings.open cfg .basic .basic 3 [129, 132, 132]) [0, 2, 9, 10] =
